@@ -226,13 +226,13 @@ end GB.C13
 namespace GB.C13
 open GB
 
-/-! ### the cut of `closeReason` on valid UTF-8 -/
+/-! ### the cut of `closeReasonWhole` on valid UTF-8 -/
 
 theorem validUTF8_nil : ValidUTF8 [] = true := rfl
 
 /-- cutting valid UTF-8 at `truncPoint` leaves valid UTF-8 (the cut is never inside a rune) -/
-theorem truncReason_valid (v : Bytes) (h : ValidUTF8 v = true) : ValidUTF8 (truncReason v) = true := by
-  unfold truncReason maxCloseReasonLen
+theorem closeReason_valid (v : Bytes) (h : ValidUTF8 v = true) : ValidUTF8 (closeReason v) = true := by
+  unfold closeReason maxCloseReasonLen
   split
   · exact h
   · rename_i hlen
@@ -269,18 +269,18 @@ theorem truncPoint_ge_120 (v : Bytes) (h : ValidUTF8 v = true) (hlen : 123 < v.l
     · have := truncPoint_ge v 123 122 b3 (by omega) e3 r; omega
     · have := truncPoint_ge v 123 123 b4 (by omega) e4 r; omega
 
-theorem truncReason_loses_le3 (v : Bytes) (h : ValidUTF8 v = true) (hlen : 123 < v.length) :
-    120 ≤ (truncReason v).length := by
-  unfold truncReason maxCloseReasonLen
+theorem closeReason_loses_le3 (v : Bytes) (h : ValidUTF8 v = true) (hlen : 123 < v.length) :
+    120 ≤ (closeReason v).length := by
+  unfold closeReason maxCloseReasonLen
   have := truncPoint_ge_120 v h hlen
   have := truncPoint_le v 123
   simp only [Nat.not_le.2 hlen, ↓reduceIte, List.length_take]
   omega
 
 /-- a prefix of at most 120 bytes survives the cut of valid UTF-8 -/
-theorem truncReason_keeps_prefix_valid (p v : Bytes) (hp : p.length ≤ 120) (hpv : p <+: v)
-    (h : ValidUTF8 v = true) : p <+: truncReason v := by
-  unfold truncReason maxCloseReasonLen
+theorem closeReason_keeps_prefix_valid (p v : Bytes) (hp : p.length ≤ 120) (hpv : p <+: v)
+    (h : ValidUTF8 v = true) : p <+: closeReason v := by
+  unfold closeReason maxCloseReasonLen
   split
   · exact hpv
   · rename_i hlen
@@ -491,5 +491,39 @@ theorem no_deadlock (cfg : Cfg) (s : St) (h : GB.LTS.Reachable (step cfg) init s
     | offering f => exact Or.inl ⟨.onDone, rfl, by simp [step, hrd, hd]⟩
     | closing => exact Or.inl ⟨.finishOnMessage, rfl, by simp [step, hrd]⟩
     | exited => simp [returned, hd, hrd] at hr
+
+end GB.C13
+
+namespace GB.C13
+open GB
+
+/-! ### flush per message -/
+
+theorem streamTraceFrom_append (send : Bytes → List WEv) (i : Nat) (a b : List Bytes) :
+    streamTraceFrom send i (a ++ b) = streamTraceFrom send i a ++ streamTraceFrom send (i + a.length) b := by
+  induction a generalizing i with
+  | nil => simp [streamTraceFrom]
+  | cons p rest ih =>
+    simp only [List.cons_append, streamTraceFrom, List.length_cons, ih, List.append_assoc]
+    have : i + 1 + rest.length = i + (rest.length + 1) := by omega
+    rw [this]
+
+theorem wire_streamTraceFrom (sse : Bool) (i : Nat) (ps : List Bytes) (v : Bytes) :
+    (streamTraceFrom (sendEvents sse) i ps).foldl wireStep { buffered := [], visible := v } =
+      { buffered := [], visible := v ++ streamBody sse ps } := by
+  induction ps generalizing i v with
+  | nil => simp [streamTraceFrom, streamBody]
+  | cons p rest ih =>
+    simp only [streamTraceFrom, sendEvents, List.cons_append, List.nil_append, List.foldl_cons, wireStep]
+    rw [ih]
+    simp [streamBody, List.flatMap_cons]
+
+theorem flushed_streamTraceFrom (sse : Bool) (i : Nat) (ps : List Bytes) :
+    flushedBeforeRecv false (streamTraceFrom (sendEvents sse) i ps) = true := by
+  induction ps generalizing i with
+  | nil => rfl
+  | cons p rest ih =>
+    simp only [streamTraceFrom, sendEvents, List.cons_append, List.nil_append, flushedBeforeRecv]
+    simpa using ih (i + 1)
 
 end GB.C13
